@@ -24,10 +24,6 @@ Proof. intros x Hx. apply In_union. right. exact Hx. Qed.
 Lemma incl_union_l (a b : list revid) : incl a (union a b).
 Proof. intros x Hx. apply In_union. left. exact Hx. Qed.
 
-Lemma wf_get p w (c : bool) : plan_wf p w = true ->
-  (forall q, plan_wf p w = q -> True) -> True.
-Proof. auto. Qed.
-
 Ltac wf_split H := unfold plan_wf in H; repeat (apply andb_prop in H; destruct H as [H ?]).
 
 Lemma wf_crp p w : plan_wf p w = true -> p_create_repository p = true ->
@@ -57,7 +53,9 @@ Proof.
 Qed.
 
 Lemma own_revs_oown a b : oown a = oown b -> own_revs a = own_revs b.
-Proof. destruct a as [[? ? ?]|], b as [[? ? ?]|]; cbn; intros H; try discriminate H; congruence. Qed.
+Proof.
+  destruct a as [[? ? ?]|], b as [[? ? ?]|]; cbn; intros H; try discriminate H; [injection H as ->|]; reflexivity.
+Qed.
 
 Section Revs.
 Variables (p : plan) (w0 : world) (nb : option loc).
@@ -120,8 +118,12 @@ Proof.
     destruct (loc_repo_add w1 _) as [w3|] eqn:El; [|discriminate Hs]. injection Hs as <-.
     intros x Hx. specialize (I2 x Hx). revert El. unfold loc_repo_add.
     destruct (w_repo w1) as [r|] eqn:Er; [|destruct (w_outer w1) as [r|] eqn:Eo; [|discriminate]];
-      intros El; injection El as <-; unfold all_revs in *; cbn [set_repo set_outer w_repo w_outer w_inner w_sib w_far orevs add_revs r_revs];
-      rewrite ?Er, ?Eo in I2; cbn [orevs] in I2; rewrite !in_app_iff in *; rewrite In_union; tauto.
+      intros El; injection El as <-; unfold all_revs in *;
+      cbn [set_repo set_outer w_repo w_outer w_inner w_sib w_far orevs add_revs r_revs];
+      rewrite ?Er, ?Eo in I2; cbn [orevs app] in I2.
+    + apply in_app_or in I2. apply in_or_app. destruct I2 as [I2|I2]; [left; apply In_union; right; exact I2|right; exact I2].
+    + rewrite Er. cbn [orevs app]. apply in_app_or in I2. apply in_or_app.
+      destruct I2 as [I2|I2]; [left; apply In_union; right; exact I2|right; exact I2].
   - (* open_reference *)
     pose proof (s3_frame p w0 nb w1) as F. rewrite (ok_world _ _ _ Hs) in F. subst w2.
     destruct HI as (I0 & I1 & I2 & I3). split; [lia|]. split; [intros _ Hd; apply I1; [lia|exact Hd]|].
@@ -173,45 +175,47 @@ Proof.
     pose proof (s5a_frame p w1) as F. rewrite (ok_world _ _ _ Hs) in F. cbn in F.
     destruct F as (_ & Fr & Fo & _ & Fi & Fs & Ff).
     destruct (same_revs w1 w2 Fr Fo) as [A B]; try (rewrite ?Fi, ?Fs, ?Ff; reflexivity).
-    apply (Inv3_keep 4 w1 w2); auto.
+    apply (Inv3_keep 4 w1 w2); auto; lia.
   - (* destroy_branch *)
     pose proof (s5b_frame p w0 nb w1) as F. rewrite (ok_world _ _ _ Hs) in F. cbn in F.
     destruct F as (_ & Fr & Fo & _ & _ & Fown).
     destruct (same_revs w1 w2 Fr Fo) as [A B];
       try (apply own_revs_oown; [exact (Fown 0) || exact (Fown 1) || exact (Fown 2)]).
-    apply (Inv3_keep 5 w1 w2); auto.
+    apply (Inv3_keep 5 w1 w2); auto; lia.
   - (* create_branch *)
     pose proof (s5c_frame p w0 w1) as F. rewrite (ok_world _ _ _ Hs) in F. cbn in F.
     destruct F as (_ & Fr & Fo & _ & Fi & Fs & Ff).
     destruct (same_revs w1 w2 Fr Fo) as [A B]; try (rewrite ?Fi, ?Fs, ?Ff; reflexivity).
-    apply (Inv3_keep 6 w1 w2); auto.
+    apply (Inv3_keep 6 w1 w2); auto; lia.
   - (* create_reference *)
     pose proof (s5d_frame p w0 nb w1) as F. rewrite (ok_world _ _ _ Hs) in F. cbn in F.
     destruct F as (_ & Fr & Fo & _ & Fi & Fs & Ff).
     destruct (same_revs w1 w2 Fr Fo) as [A B]; try (rewrite ?Fi, ?Fs, ?Ff; reflexivity).
-    apply (Inv3_keep 7 w1 w2); auto.
+    apply (Inv3_keep 7 w1 w2); auto; lia.
   - (* trees *)
     pose proof (s6_frame p w1) as F. rewrite (ok_world _ _ _ Hs) in F. cbn in F.
     destruct F as (_ & Fr & Fo & _ & Fi & Fs & Ff).
     destruct (same_revs w1 w2 Fr Fo) as [A B]; try (rewrite ?Fi, ?Fs, ?Ff; reflexivity).
-    apply (Inv3_keep 8 w1 w2); auto.
+    apply (Inv3_keep 8 w1 w2); auto; lia.
   - (* unbind *)
     pose proof (s7_frame p w1) as F. rewrite (ok_world _ _ _ Hs) in F. cbn in F.
     destruct F as (_ & Fr & Fo & _ & Fi & Fs & Ff).
     destruct (same_revs w1 w2 Fr Fo) as [A B]; try (rewrite ?Fi, ?Fs, ?Ff; reflexivity).
-    apply (Inv3_keep 9 w1 w2); auto.
+    apply (Inv3_keep 9 w1 w2); auto; lia.
   - (* bind *)
     pose proof (s8_frame p w0 nb w1) as F. rewrite (ok_world _ _ _ Hs) in F. cbn in F.
     destruct F as (_ & Fr & Fo & _ & Fi & Fs & Ff).
     destruct (same_revs w1 w2 Fr Fo) as [A B]; try (rewrite ?Fi, ?Fs, ?Ff; reflexivity).
-    apply (Inv3_keep 10 w1 w2); auto.
+    apply (Inv3_keep 10 w1 w2); auto; lia.
   - (* destroy_repository: its content is elsewhere by now *)
     destruct HI as (I0 & I1 & I2 & I3). split; [lia|]. split; [intros; lia|]. split; [|intros; lia].
     unfold step_destroy_repository in Hs. destruct (p_destroy_repository p) eqn:Ed; [|injection Hs as <-; exact I2].
     destruct (w_repo w1) eqn:Er; [|discriminate Hs]. injection Hs as <-.
-    specialize (I3 ltac:(lia) ltac:(lia) eq_refl). rewrite Er in I3.
-    intros x Hx. specialize (I2 x Hx). rewrite all_revs_rest in *. rewrite Er in I2.
-    cbn [set_repo w_repo orevs app]. apply in_app_or in I2. destruct I2 as [I2|I2]; [apply I3; exact I2|exact I2].
+    specialize (I3 ltac:(lia) ltac:(lia) eq_refl). rewrite ?Er in I3.
+    intros x Hx. specialize (I2 x Hx). rewrite (all_revs_rest w1) in I2. rewrite ?Er in I2.
+    rewrite all_revs_rest. cbn [set_repo w_repo orevs app].
+    change (rest (set_repo w1 None)) with (rest w1).
+    apply in_app_or in I2. destruct I2 as [I2|I2]; [apply I3; exact I2|exact I2].
   - (* repository_trees *)
     destruct HI as (I0 & I1 & I2 & I3). split; [lia|]. split; [intros; lia|]. split; [|intros; lia].
     pose proof (s10_frame p w1) as F. rewrite (ok_world _ _ _ Hs) in F. cbn in F.
@@ -232,4 +236,190 @@ Theorem no_revision_lost_guarded t force nb w w' p :
 Proof.
   intros Hf Hg H r Hr. unfold reconfigure in H. rewrite Hf in H.
   exact (apply_no_loss p w nb (factory_wf _ _ _ Hf) Hg force w' H r Hr).
+Qed.
+
+(* ---- the revisions reachable from the tip stay in the branch's repository ------------------------
+   Proved for every reconfiguration after which the location holds a branch of its own (a kept local
+   branch, or a branch created from a reference); see notes/C52.md for the two remaining cases. *)
+Section Ancestry.
+Variables (p : plan) (w0 : world) (nb : option loc) (tp : option revid).
+Hypothesis Hwf : plan_wf p w0 = true.
+Hypothesis Hncr : p_create_reference p = false.
+Hypothesis Htip : eff_tip w0 = Some tp.
+Hypothesis Hown : has_local w0 = true \/ p_create_branch p = true.
+
+Definition R0 : list revid := fetched (w_g w0) (eff_revs w0) tp.
+Definition Q (w : world) : Prop := incl R0 (orevs (find_repo w)).
+
+Definition Inv4 (j : nat) (w : world) : Prop :=
+  (j = 0 -> w = w0)
+  /\ w_g w = w_g w0
+  /\ (has_local w0 = true -> Q w)
+  /\ (p_create_branch p = true -> 2 <= j -> Q w)
+  /\ (4 <= j -> j <= 11 -> p_destroy_repository p = true ->
+      is_some (w_outer w) = true /\ incl (orevs (w_repo w)) (orevs (w_outer w))).
+
+Lemma Inv4_keep j w1 w2 : 4 <= j -> j <= 10 -> Inv4 j w1 ->
+  w_g w2 = w_g w1 -> w_repo w2 = w_repo w1 -> w_outer w2 = w_outer w1 -> Inv4 (S j) w2.
+Proof.
+  intros L1 L2 (I0 & Ig & I1 & I2 & I3) G A B.
+  assert (F : find_repo w2 = find_repo w1) by (unfold find_repo; rewrite A, B; reflexivity).
+  split; [lia|]. split; [congruence|]. unfold Q. rewrite F.
+  split; [exact I1|]. split; [intros H _; apply I2; [exact H|lia]|].
+  intros _ _ Hd. rewrite A, B. apply I3; [lia|lia|exact Hd].
+Qed.
+
+Lemma wf_db : p_destroy_branch p = false.
+Proof.
+  destruct (p_destroy_branch p) eqn:E; [|reflexivity]. pose proof Hwf as H. wf_split H.
+  match goal with Hx : implb (p_destroy_branch p) _ = true |- _ => rewrite E, Hncr in Hx; cbn in Hx; discriminate Hx end.
+Qed.
+
+Lemma wf_cb_nolocal : p_create_branch p = true -> has_local w0 = false /\ p_destroy_repository p = false.
+Proof.
+  intros E. pose proof Hwf as H. wf_split H. split.
+  - match goal with Hx : implb (p_create_branch p) _ = true |- _ => rewrite E in Hx; cbn in Hx;
+      repeat (apply andb_prop in Hx; destruct Hx as [Hx ?]) end.
+    match goal with Hy : negb (has_local w0) = true |- _ => apply negb_true_iff in Hy; exact Hy end.
+  - destruct (p_destroy_repository p) eqn:Ed; [|reflexivity].
+    destruct (wf_drp _ _ Hwf Ed) as (_ & C & _). congruence.
+Qed.
+
+Lemma Inv4_step j s w1 w2 :
+  nth_error (steps nb p w0) j = Some s -> Inv4 j w1 -> s w1 = Ok w2 -> Inv4 (S j) w2.
+Proof.
+  intros Hn HI Hs. apply steps_cases in Hn.
+  destruct Hn as [[-> ->]|[[-> ->]|[[-> ->]|[[-> ->]|[[-> ->]|[[-> ->]|[[-> ->]|[[-> ->]|[[-> ->]|[[-> ->]|[[-> ->]|[[-> ->]|[-> ->]]]]]]]]]]]]].
+  - (* create_repository *)
+    destruct HI as (I0 & Ig & I1 & I2 & I3). specialize (I0 eq_refl). subst w1.
+    unfold step_create_repository in Hs. split; [lia|]. destruct (p_create_repository p) eqn:Ec.
+    + injection Hs as <-. split; [reflexivity|]. split; [|split; [intros; lia|intros; lia]].
+      intros Hl. unfold Q, find_repo. cbn [set_repo w_repo orevs r_revs]. rewrite wf_db. cbn [negb andb].
+      unfold has_local in Hl. rewrite Hl. cbn [andb].
+      intros x Hx. apply In_union. left. unfold R0 in Hx.
+      unfold eff_tip, eff_revs, local_of in *. destruct (w_branch w0) as [|b|l]; try discriminate Hl.
+      injection Htip as <-. exact Hx.
+    + injection Hs as <-. split; [reflexivity|]. split; [exact I1|]. split; [intros; lia|intros; lia].
+  - (* fetch_referenced *)
+    destruct HI as (I0 & Ig & I1 & I2 & I3). split; [lia|].
+    unfold step_fetch_referenced in Hs.
+    destruct (p_create_branch p) eqn:Ecb.
+    2:{ injection Hs as <-. split; [exact Ig|]. split; [exact I1|]. split; [intros H; discriminate H|intros; lia]. }
+    destruct (wf_cb_nolocal Ecb) as [Hnl _].
+    assert (Href : exists l o, refd_of w0 = Some (l, o)).
+    { unfold eff_tip, refd_of, has_local, local_of in *. destruct (w_branch w0) as [|b|l]; try discriminate.
+      destruct (get_other w0 l) as [o|]; [eauto|discriminate]. }
+    destruct Href as (l & o & Href). rewrite Href in Hs.
+    destruct (place_revs w0 l o) as [src|] eqn:Epr; [|discriminate Hs].
+    destruct (loc_repo_add w1 _) as [w3|] eqn:El; [|discriminate Hs]. injection Hs as <-.
+    pose proof (loc_repo_add_frame _ _ _ El) as (Fg & _).
+    split; [congruence|]. split; [intros H; congruence|]. split; [|intros; lia].
+    intros _ _. unfold Q, R0.
+    assert (Er : eff_revs w0 = src /\ tp = o_tip o).
+    { unfold eff_revs, eff_tip, refd_of in *. destruct (w_branch w0) as [|b|l']; try discriminate.
+      destruct (get_other w0 l') as [o'|]; [|discriminate]. injection Href as -> ->. rewrite Epr.
+      injection Htip as <-. auto. }
+    destruct Er as [-> ->]. rewrite Ig in El.
+    revert El. unfold loc_repo_add, find_repo.
+    destruct (w_repo w1) as [r|] eqn:Er; [|destruct (w_outer w1) as [r|]; [|discriminate]];
+      intros El; injection El as <-; cbn [set_repo set_outer w_repo w_outer orevs add_revs r_revs];
+      rewrite ?Er; cbn [orevs add_revs r_revs];
+      intros x Hx; apply In_union; left; exact Hx.
+  - (* open_reference *)
+    pose proof (s3_frame p w0 nb w1) as F. rewrite (ok_world _ _ _ Hs) in F. subst w2.
+    destruct HI as (I0 & Ig & I1 & I2 & I3). split; [lia|]. split; [exact Ig|]. split; [exact I1|].
+    split; [intros H _; apply I2; [exact H|lia]|intros; lia].
+  - (* destroy_repository_fetch *)
+    destruct HI as (I0 & Ig & I1 & I2 & I3). split; [lia|].
+    unfold step_destroy_repository_fetch in Hs.
+    destruct (p_destroy_repository p) eqn:Ed.
+    2:{ injection Hs as <-. split; [exact Ig|]. split; [exact I1|]. split; [intros H _; apply I2; [exact H|lia]|].
+        intros _ _ Hd; discriminate Hd. }
+    rewrite Hncr, wf_db in Hs. cbn [negb andb] in Hs. rewrite andb_true_r in Hs.
+    destruct (is_some (local_of w0)) eqn:Hl.
+    + destruct (w_outer w1) as [r|] eqn:Eou; [|discriminate Hs]. injection Hs as <-.
+      assert (Fr : find_repo (set_outer w1 (Some (add_revs (orevs (find_repo w1)) r))) = find_repo w1 \/
+                   (w_repo w1 = None)).
+      { unfold find_repo. cbn [set_outer w_repo]. destruct (w_repo w1); auto. }
+      split; [exact Ig|]. split.
+      * intros H. specialize (I1 H). unfold Q in *. destruct Fr as [Fr|Fr]; [rewrite Fr; exact I1|].
+        unfold find_repo in *. cbn [set_outer w_repo w_outer]. rewrite Fr in *. rewrite Eou in I1.
+        cbn [orevs add_revs r_revs] in *. intros x Hx. apply In_union. right. apply I1. exact Hx.
+      * split.
+        -- intros H. destruct (wf_cb_nolocal H) as [_ C]. congruence.
+        -- intros _ _ _. cbn [set_outer w_repo w_outer is_some orevs add_revs r_revs]. split; [reflexivity|].
+           intros x Hx. apply In_union. left. unfold find_repo. destruct (w_repo w1); [exact Hx|destruct Hx].
+    + exfalso. destruct (wf_drp _ _ Hwf Ed) as (_ & Hcb & _).
+      destruct Hown as [H|H]; [unfold has_local in H; congruence|congruence].
+  - (* destroy_reference *)
+    pose proof (s5a_frame p w1) as F. rewrite (ok_world _ _ _ Hs) in F. cbn in F.
+    destruct F as (Fg & Fr & Fo & _). apply (Inv4_keep 4 w1 w2); auto; lia.
+  - (* destroy_branch *)
+    pose proof (s5b_frame p w0 nb w1) as F. rewrite (ok_world _ _ _ Hs) in F. cbn in F.
+    destruct F as (Fg & Fr & Fo & _). apply (Inv4_keep 5 w1 w2); auto; lia.
+  - (* create_branch *)
+    pose proof (s5c_frame p w0 w1) as F. rewrite (ok_world _ _ _ Hs) in F. cbn in F.
+    destruct F as (Fg & Fr & Fo & _). apply (Inv4_keep 6 w1 w2); auto; lia.
+  - (* create_reference *)
+    pose proof (s5d_frame p w0 nb w1) as F. rewrite (ok_world _ _ _ Hs) in F. cbn in F.
+    destruct F as (Fg & Fr & Fo & _). apply (Inv4_keep 7 w1 w2); auto; lia.
+  - (* trees *)
+    pose proof (s6_frame p w1) as F. rewrite (ok_world _ _ _ Hs) in F. cbn in F.
+    destruct F as (Fg & Fr & Fo & _). apply (Inv4_keep 8 w1 w2); auto; lia.
+  - (* unbind *)
+    pose proof (s7_frame p w1) as F. rewrite (ok_world _ _ _ Hs) in F. cbn in F.
+    destruct F as (Fg & Fr & Fo & _). apply (Inv4_keep 9 w1 w2); auto; lia.
+  - (* bind *)
+    pose proof (s8_frame p w0 nb w1) as F. rewrite (ok_world _ _ _ Hs) in F. cbn in F.
+    destruct F as (Fg & Fr & Fo & _). apply (Inv4_keep 10 w1 w2); auto; lia.
+  - (* destroy_repository *)
+    destruct HI as (I0 & Ig & I1 & I2 & I3). split; [lia|].
+    pose proof (s9_frame p w1) as F. rewrite (ok_world _ _ _ Hs) in F. cbn in F. destruct F as (Fg & Fo & _).
+    split; [congruence|].
+    unfold step_destroy_repository in Hs. destruct (p_destroy_repository p) eqn:Ed.
+    2:{ injection Hs as <-. split; [exact I1|]. split; [intros H _; apply I2; [exact H|lia]|intros; lia]. }
+    destruct (w_repo w1) as [r|] eqn:Er; [|discriminate Hs]. injection Hs as <-.
+    destruct (I3 ltac:(lia) ltac:(lia) eq_refl) as [Hou Hin]. cbn [orevs] in Hin.
+    assert (HQ : Q w1 -> Q (set_repo w1 None)).
+    { unfold Q, find_repo. cbn [set_repo w_repo w_outer]. rewrite Er. cbn [orevs].
+      intros H x Hx. destruct (w_outer w1); [|discriminate Hou]. cbn [orevs] in *. apply Hin, H, Hx. }
+    split; [intros H; apply HQ, I1, H|]. split; [intros H _; apply HQ, I2; [exact H|lia]|intros; lia].
+  - (* repository_trees *)
+    destruct HI as (I0 & Ig & I1 & I2 & I3). split; [lia|].
+    pose proof (s10_frame p w1) as F. rewrite (ok_world _ _ _ Hs) in F. cbn in F.
+    destruct F as (Fg & _ & _ & _ & _ & _ & Fr & Fo & Fs).
+    assert (E : orevs (find_repo w2) = orevs (find_repo w1)).
+    { unfold find_repo. destruct (w_repo w2), (w_repo w1); cbn in *; try discriminate Fs; auto. }
+    split; [congruence|]. unfold Q. rewrite E. split; [exact I1|]. split; [intros H _; apply I2; [exact H|lia]|intros; lia].
+Qed.
+
+Lemma apply_ancestry force w' : apply force nb p w0 = Ok w' -> Q w'.
+Proof.
+  intros H. apply (apply_ok_inv Inv4 force nb p w0 w') in H; [| |exact Inv4_step].
+  - destruct H as (_ & _ & I1 & I2 & _). destruct Hown as [Hl|Hc]; [apply I1; exact Hl|apply I2; [exact Hc|lia]].
+  - split; [auto|]. split; [auto|]. split; [|split; [intros; lia|intros; lia]].
+    intros Hl. unfold Q, R0. unfold has_local, local_of, eff_revs in *.
+    destruct (w_branch w0); try discriminate Hl. intros x Hx. unfold fetched in Hx.
+    destruct tp; [|destruct Hx]. apply filter_In in Hx. destruct Hx as [_ Hx]. apply memb_In. exact Hx.
+Qed.
+End Ancestry.
+
+Theorem preserves_ancestry_partial t force nb w w' p tp :
+  factory w t = inl p -> p_create_reference p = false ->
+  has_local w = true \/ p_create_branch p = true ->
+  reconfigure t force nb w = Ok w' -> eff_tip w = Some tp ->
+  forall r, In r (fetched (w_g w) (eff_revs w) tp) -> In r (eff_revs w').
+Proof.
+  intros Hf Hn Ho H Ht r Hr. unfold reconfigure in H. rewrite Hf in H.
+  pose proof (factory_wf _ _ _ Hf) as Hwf.
+  pose proof (apply_ancestry p w nb tp Hwf Hn Ht Ho force w' H r Hr) as HQ.
+  destruct (apply_final p w nb force w' H) as (Hb & _).
+  unfold eff_revs. rewrite Hb. cbn [branch_at]. unfold B11, B10, B8. rewrite Hn.
+  assert (Hk : match B7 p w with BRef _ => False | _ => True end).
+  { unfold B7, B6, B5, new_branch. destruct (p_create_branch p) eqn:Ecb; [exact I|].
+    destruct Ho as [Hl|Hc]; [|discriminate Hc].
+    unfold has_local, local_of in Hl. destruct (w_branch w) as [|b|l]; try discriminate Hl.
+    destruct (p_destroy_branch p), (p_destroy_reference p); exact I. }
+  destruct (B7 p w) as [|b|l]; [| |contradiction];
+    destruct (p_unbind p), (p_bind p); cbn; exact HQ.
 Qed.
